@@ -682,6 +682,49 @@ func run(r *mon.Run) {
 					}
 				})
 			})
+			// every 32-byte byte string of the signed subset (auth-sha256, header-sha256) shortened and lengthened, the
+			// subset validly re-signed: digests are attacker-supplied values, their length is not guaranteed
+			{
+				var walk func(it *rcbor.Item, out *[]*rcbor.Item)
+				walk = func(it *rcbor.Item, out *[]*rcbor.Item) {
+					if it.Major == 2 && len(it.Str) == 32 {
+						*out = append(*out, it)
+					}
+					for _, c := range it.Elems {
+						walk(c, out)
+					}
+				}
+				var digests []*rcbor.Item
+				if items, derr := rcbor.DecodeAll(honestSubset, rcbor.Opts{}); derr == nil {
+					for _, it := range items {
+						walk(it, &digests)
+					}
+				}
+				for di, it := range digests {
+					for _, nl := range []int{0, 1, 16, 31, 33, 64} {
+						content := append([]byte{}, it.Str...)
+						if nl <= 32 {
+							content = content[:nl]
+						} else {
+							content = append(content, make([]byte, nl-32)...)
+						}
+						m := append(append(append([]byte{}, honestSubset[:it.Start]...), rcbor.Bytes(content)...), honestSubset[it.End:]...)
+						s2 := resign(m)
+						if s2 == nil {
+							continue
+						}
+						guard(r, "NewVerifier+VerifyExchange(re-signed subset)", fmt.Sprintf("digest#%d-length=%d", di, nl), m, len(m)+len(idA.CBOR), func() {
+							v, err := signature.NewVerifier(s2, date.Add(time.Minute), b.Version)
+							if err == nil {
+								v.VerifyExchange(b.Exchanges[0])
+							}
+						})
+					}
+				}
+				if len(digests) < 2 {
+					r.HarnessFail("C10: expected at least two 32-byte digests in the honest signed subset, found %d", len(digests))
+				}
+			}
 			// unsigned mutations of the signatures structure itself
 			for _, auth := range []uint64{0, 1, 2, 1 << 31, 1 << 63, ^uint64(0)} {
 				if mine() {
